@@ -40,6 +40,10 @@ CATALOGUE = [
         with self._reqid_generator_guard:
             self._cur_req_id = next_req_id + 1
 """, note="read outside, write inside the lock"),
+    dict(id="m16_wrap_collision", prop="C16", file="ak/conn_http.py",
+         old='            "{:012}".format(next_req_id))\n',
+         new='            "{:012}".format(next_req_id%10000))\n',
+         note="ids repeat after 10000 requests: needs the long warm-up runs"),
     # ------------------------------------------------------------------ C17
     dict(id="m17_clone_list", prop="C17", file="ak/mcaller_http.py",
          old="        elif not isinstance(http_conn_adapters, (list, tuple)):\n",
